@@ -110,9 +110,7 @@ class Monitor(object):
                     ctx.nt((g, e, n, age, esaa))
                     ctx.count('judged.recased-event' if e.strip() == e and g.strip() == g else 'judged.blank-decorated-pair')
             return
-        if g not in ('M', 'F') and (g, e) not in UNKNOWN:
-            ctx.count('unjudged.gender-spelling')
-            return
+        # any other gender label (X, ?, '', Male ...) makes an unknown pair: no score, and no error either
         exp = O.exact_score(core.REPO, self.live, g, e, n, age, esaa)
         if exp[0] == 'unspecified':
             ctx.count('unspecified.' + ('raise' if not out.ok else 'return'))
@@ -269,6 +267,12 @@ def run_shard(ctx, spec):
                     drive(mon, g, e, rnd.randrange(lo, hi + 1), age=age, esaa=True, reps=False)
         # veterans' hurdles remapping
     if spec['i'] == 0:
+        evs = sorted(set(e for _, e in mon.live)) + ['80H', '100H', '110H']
+        for g in ('X', '?', '', 'W', 'B', 'MF', 'Male', 'female', 'U', '0'):
+            for e in evs:
+                for n in (0, 1400):
+                    drive(mon, g, e, n, reps=False)
+                    drive(mon, g, e, n, age=50, reps=False)
         for g, e in UNKNOWN:
             for n in (0, 1000, 1234):
                 drive(mon, g, e, n, reps=False)
